@@ -68,6 +68,10 @@ Inductive step (ss : list stmt) (p : Z) : store -> store -> Prop :=
 | step_phi m x op args k sv st a v s :
     In (SSubst m x op (EPhi args k) sv st) ss -> In a args -> s a = Some v ->
     step ss p s (upd s x (Some v))
+| step_phi_opaque m x op args k sv st a s :
+    (* the copied argument is itself opaque *)
+    In (SSubst m x op (EPhi args k) sv st) ss -> In a args -> s a = None ->
+    step ss p s (upd s x None)
 | step_opaque m x op rhe sv st s :
     (* the right-hand side has no scalar value (array, call, component): the cell becomes opaque *)
     In (SSubst m x op rhe sv st) ss -> is_phi rhe = false -> (forall v, ~ evalR p s rhe v) ->
